@@ -93,8 +93,13 @@ Fixpoint insert (x : Z) (l : list Z) : list Z :=
   | y :: r => if x <=? y then x :: l else y :: insert x r
   end.
 Definition isort (l : list Z) : list Z := fold_right insert [] l.
-(* returns the ids and the (suppressed in place) list the spec holds afterwards *)
+(* returns the ids and the list the spec holds afterwards.  Since
+   fixes/C11-transport-parameter-ids-on-a-copy.patch the method suppresses on a COPY: the spec
+   keeps the list as the caller wrote it.  [tp_ids_legacy] is the method before the repair
+   (it suppressed on the spec's own extension, so the spec kept the shortened list). *)
 Definition tp_ids (sup : list Z) (ps : list param) : list Z * list param :=
+  (isort (map (fun p => canon (pid p)) (suppress sup ps)), ps).
+Definition tp_ids_legacy (sup : list Z) (ps : list param) : list Z * list param :=
   let s := suppress sup ps in (isort (map (fun p => canon (pid p)) s), s).
 
 (** ** utls TransportParams.Marshal and a reader for it *)
